@@ -109,3 +109,47 @@ Proof. intros H. unfold seg_errors. destruct (g_status f =? 200) eqn:E; [lia | r
 (* a timeline whose entries follow one another has no gap; moving one explicit t creates one *)
 Lemma contiguous_gap s1 d1 s2 d2 r : s1 + d1 <> s2 -> contiguous ((s1, d1) :: (s2, d2) :: r) = false.
 Proof. intros H. cbn [contiguous]. destruct (s1 + d1 =? s2) eqn:E; [lia | reflexivity]. Qed.
+
+(* ---- manifest level *)
+Lemma server_manifest_ok f : server_manifest f -> manifest_errors f = [].
+Proof.
+  intros (Hp & Hb & Hl & Hv). unfold manifest_errors.
+  assert (E : (0 <? m_periods f) = true) by lia. rewrite E, Hb. cbn [app].
+  destruct (m_live f) eqn:L.
+  - destruct (Hl eq_refl) as (A & B & C & D & G). rewrite A, B, C, D. cbn [app].
+    destruct (m_prev_ast f) as [a|] eqn:Pa; [|destruct (m_ast f); reflexivity].
+    rewrite (G a eq_refl). rewrite Z.eqb_refl. reflexivity.
+  - destruct (Hv eq_refl) as (A & (d & Hd & Hpos) & C & D & G). rewrite A, Hd, C, D, G.
+    assert (E2 : (0 <? d) = true) by lia. rewrite E2. reflexivity.
+Qed.
+
+Definition drop_ast (f : mfacts) : mfacts :=
+  {| m_live := m_live f; m_dynamic := m_dynamic f; m_periods := m_periods f; m_has_minbuf := m_has_minbuf f; m_has_ast := false;
+     m_has_tsbd := m_has_tsbd f; m_has_mup := m_has_mup f; m_mpd := m_mpd f; m_period_durations := m_period_durations f;
+     m_patches := m_patches f; m_prev_ast := m_prev_ast f; m_ast := m_ast f |}.
+Definition drop_minbuf (f : mfacts) : mfacts :=
+  {| m_live := m_live f; m_dynamic := m_dynamic f; m_periods := m_periods f; m_has_minbuf := false; m_has_ast := m_has_ast f;
+     m_has_tsbd := m_has_tsbd f; m_has_mup := m_has_mup f; m_mpd := m_mpd f; m_period_durations := m_period_durations f;
+     m_patches := m_patches f; m_prev_ast := m_prev_ast f; m_ast := m_ast f |}.
+Definition change_ast (f : mfacts) (v : Z) : mfacts :=
+  {| m_live := m_live f; m_dynamic := m_dynamic f; m_periods := m_periods f; m_has_minbuf := m_has_minbuf f; m_has_ast := m_has_ast f;
+     m_has_tsbd := m_has_tsbd f; m_has_mup := m_has_mup f; m_mpd := m_mpd f; m_period_durations := m_period_durations f;
+     m_patches := m_patches f; m_prev_ast := m_prev_ast f; m_ast := Some v |}.
+
+Lemma detect_missing_ast f : m_live f = true -> In MAst (manifest_errors (drop_ast f)).
+Proof.
+  intros L. unfold manifest_errors. cbn [m_live m_has_ast drop_ast m_periods m_has_minbuf m_dynamic m_has_tsbd m_mpd m_prev_ast m_ast].
+  rewrite L. rewrite !in_app_iff. right. right. left. right. left. left. reflexivity.
+Qed.
+
+Lemma detect_missing_minbuf f : In MMinBuf (manifest_errors (drop_minbuf f)).
+Proof.
+  unfold manifest_errors. cbn [m_has_minbuf drop_minbuf]. rewrite !in_app_iff. right. left. left. reflexivity.
+Qed.
+
+Lemma detect_ast_change f a v : m_live f = true -> m_prev_ast f = Some a -> v <> a -> In MAstChanged (manifest_errors (change_ast f v)).
+Proof.
+  intros L Pa Hv. unfold manifest_errors. cbn [m_live m_prev_ast m_ast change_ast m_periods m_has_minbuf m_dynamic m_has_ast m_has_tsbd m_mpd].
+  rewrite L, Pa. assert (E : (a =? v) = false) by lia. rewrite E.
+  rewrite !in_app_iff. right. right. right. left. reflexivity.
+Qed.
